@@ -13,8 +13,8 @@ T2 = cQ(Fraction(1, 10 ** 16))
 def cvec(v): return '(' + clist([cC(complex(x)) for x in np.asarray(v).reshape(-1)]) + ' : vec)'
 def cmat(M): return '(' + clist([cvec(r) for r in np.asarray(M)]) + ' : mat)'
 
-def rand_qh(of, rng, rs, n):
-    kind = rng.choice(['conserving_real', 'conserving_complex', 'spin_block', 'half_block', 'chain', 'sign_sparse', 'diagonal', 'degenerate', 'pairing_real', 'pairing_complex', 'bcs_diagonal', 'pairing_sparse'])
+def rand_qh(of, rng, rs, n, force=None):
+    kind = force or rng.choice(['conserving_real', 'conserving_complex', 'spin_block', 'half_block', 'chain', 'sign_sparse', 'diagonal', 'degenerate', 'pairing_real', 'pairing_complex', 'bcs_diagonal', 'pairing_sparse', 'paired_plus_block', 'paired_plus_block'])
     M = np.zeros((n, n), dtype=complex); D = np.zeros((n, n), dtype=complex)
     def herm(cplx): 
         A = rs.randn(n, n) + (1j * rs.randn(n, n) if cplx else 0); return (A + A.conj().T) / 2
@@ -49,6 +49,16 @@ def rand_qh(of, rng, rs, n):
     elif kind == 'degenerate': M = np.diag([float(rng.choice([-1, 1])) for _ in range(n)]).astype(complex)
     elif kind == 'pairing_real': M = herm(False).astype(complex); D = anti(False).astype(complex)
     elif kind == 'pairing_complex': M = herm(True); D = anti(True)
+    elif kind == 'paired_plus_block' and n >= 3:
+        # pairing confined to the first k modes; the remaining >= 2 modes form a decoupled number-conserving (complex) hopping block,
+        # so several Bogoliubov rows have no weight in one ladder-operator block (rank-deficient left block of the decomposition)
+        k = (2 if n >= 5 else rng.choice([1, 2])) if n >= 4 else 1
+        cplx = rng.random() < 0.8
+        M = herm(cplx).astype(complex); M[:k, k:] = 0; M[k:, :k] = 0
+        A = anti(cplx).astype(complex); D[:k, :k] = A[:k, :k]
+        if k == 1: M[0, 0] = M[0, 0].real
+        if k == 1 and n >= 4 and rng.random() < 0.5:
+            M[:2, 2:] = 0; M[2:, :2] = 0; D[0, 1] = A[0, 1]; D[1, 0] = -A[0, 1]
     elif kind == 'bcs_diagonal':
         M = np.diag([float(rng.choice([0.0, 0.5, 1.0, -1.0])) for _ in range(n)]).astype(complex)
         if n >= 2:
@@ -71,6 +81,9 @@ def run(ctx):
     for i in range(N(40, 300)):
         n = rng.choice([1, 2, 3, 4] if ctx.quick else [1, 2, 3, 4, 4, 5])
         kind, qh = rand_qh(of, rng, rs, n)
+        if i % 8 == 7:
+            # five modes: a paired pair next to a three-mode hopping block (smallest size with a left block rank-deficient by two)
+            n = 5; kind, qh = rand_qh(of, rng, rs, n, force='paired_plus_block')
         H = of.get_fermion_operator(qh)
         rp = {'kind': kind, 'n': n, 'M': repr(np.round(qh.hermitian_part, 12).tolist()), 'Delta': repr(None if qh.antisymmetric_part is None else np.round(qh.antisymmetric_part, 12).tolist()),
               'chemical_potential': qh.chemical_potential, 'constant': qh.constant}
@@ -106,6 +119,20 @@ def run(ctx):
                 ctx.count('gaussian_energy', 1)
                 if abs(E - exp) > 1e-8: ctx.violation('C12 jw_get_gaussian_state: returned energy %r differs from constant + occupied orbital energies %r' % (E, exp), rq)
                 if occ is None and abs(E - qh.ground_energy()) > 1e-8: ctx.violation('C12 jw_get_gaussian_state: default occupation does not give the ground energy', rq)
+        elif n == 5:
+            # five modes: numerical eigen-residual (the exact Coq check is kept to n <= 4)
+            Hm = of.get_sparse_operator(H, n).toarray()
+            allocc = [list(S) for r in range(n + 1) for S in itertools.combinations(range(n), r)]
+            oe, oc = qh.orbital_energies()
+            for occ in [None] + rng.sample(allocc, 6):
+                rq = dict(rp, call='jw_get_gaussian_state', occupied_orbitals=occ)
+                ctx.count('gaussian_state_numeric', 1, nontrivial_key=(repr(rp), repr(occ)))
+                try: E, psi = jw_get_gaussian_state(qh, occ)
+                except Exception as e:
+                    ctx.violation('C12 jw_get_gaussian_state raised %s: %s' % (type(e).__name__, e), rq); continue
+                exp = oc + (sum(oe[j] for j in occ) if occ is not None else sum(x for x in oe if x < 0))
+                if abs(np.linalg.norm(psi) - 1) > 1e-8 or np.linalg.norm(Hm @ psi - E * psi) > 1e-7 or abs(E - exp) > 1e-8:
+                    ctx.violation('C12 jw_get_gaussian_state: the returned state is not a normalised eigenstate with the returned energy (residual %.3g)' % np.linalg.norm(Hm @ psi - E * psi), rq)
     # antisymmetric_canonical_form
     from openfermion.ops.representations.quadratic_hamiltonian import antisymmetric_canonical_form
     for i in range(N(20, 150)):
